@@ -128,6 +128,26 @@ def rule_replay_reference_threaded(ctx, fx, config, prop="C16"):
                             bad.append("%s passes `%s`" % (g.name, render(ga)[:40]))
             return (sites > 0 and not bad), bad
         return False, None
+    # the helper decides "reached through an alias" by comparing whole locations: the node's first event against the
+    # use-site.  A comparison of one component (the line, say) treats an alias on its anchor's line — flow style,
+    # `{a: &x !V 7, b: *x}` — as the node written in place, and the use-site is lost.
+    hf = fx.fn(HELPER)
+    ctx.saw(hf)
+    body = [hf] + [g for g in fx.fns.values() if g.npath.startswith(HELPER + "::{closure")]
+    whole, comp = 0, []
+    for g in body:
+        for b, t in g.calls():
+            c = fx.callee(t)
+            if last_seg(c) in ("ne", "eq") and "PartialEq" in c and all("Location" in g.local_ty(o[k]["l"]) for o in t["args"] for k in ("cp", "mv") if k in o):
+                whole += 1
+            if c.startswith("location::Location::") and last_seg(c) in ("line", "column", "byte_offset", "span", "byte_info"):
+                comp.append("%s() in %s" % (last_seg(c), g.name))
+        for b, i, s_ in g.stmts():
+            if s_["k"] == "assign" and s_["rv"]["k"] == "bin" and s_["rv"].get("op") in ("Lt", "Le", "Gt", "Ge", "Eq", "Ne"):
+                comp.append("%s at line %s" % (s_["rv"]["op"], s_.get("ln", "?")))
+    ctx.check(whole >= 2 and not comp, "USE-SITE", "%s:USE-SITE:alias-test-compares-whole-locations" % prop,
+              "at_use_site tests `use_site != UNKNOWN` and `defined != use_site` on whole locations (%d comparisons)" % whole,
+              "at_use_site decides whether the node was reached through an alias from a component of the locations (%s; %d whole-location comparisons): an alias on the same line as its anchor is taken for the node written in place and `Spanned::referenced` names the anchor" % ("; ".join(comp) or "no component read", whole), config, ctx.where(hf))
     for f in sorted(fx.fns.values(), key=lambda g: g.npath):
         for b, t in f.calls():
             c = fx.callee(t)
